@@ -309,3 +309,32 @@ impl tokio::io::AsyncWrite for ShortSink {
         Poll::Ready(Ok(()))
     }
 }
+
+/// A sink whose `fail_at`-th write call (0-based) fails with an I/O error and accepts nothing;
+/// every other call accepts everything.
+pub struct FailOnceSink {
+    pub out: Vec<u8>,
+    pub fail_at: u64,
+    pub calls: u64,
+    pub failed: bool,
+}
+impl FailOnceSink {
+    pub fn new(fail_at: u64) -> Self {
+        FailOnceSink { out: Vec::new(), fail_at, calls: 0, failed: false }
+    }
+}
+impl io::Write for FailOnceSink {
+    fn write(&mut self, buf: &[u8]) -> io::Result<usize> {
+        let i = self.calls;
+        self.calls += 1;
+        if i == self.fail_at {
+            self.failed = true;
+            return Err(io::Error::new(io::ErrorKind::Other, "injected sink failure"));
+        }
+        self.out.extend_from_slice(buf);
+        Ok(buf.len())
+    }
+    fn flush(&mut self) -> io::Result<()> {
+        Ok(())
+    }
+}
